@@ -1,12 +1,14 @@
 #!/bin/sh
 # usage: tools/try_patch.sh <patch.diff> <property-ids comma separated|all>
-# Applies a seeded change to /repo, runs the checks, and undoes it straight afterwards.
+# Applies a change to a scratch worktree of /repo's HEAD (never to /repo itself), runs the checks
+# against that tree, and restores the worktree. The scratch worktree lives outside /repo and /verif.
 patch="$(readlink -f "$1")"; props="${2:-all}"
+wt=${TRY_WT:-/root/scratch/wt-try}
 cd /verif || exit 2
-if [ -n "$(git -C /repo status --porcelain)" ]; then echo "/repo is dirty"; exit 2; fi
-git -C /repo apply "$patch" || { echo "patch does not apply"; exit 2; }
-out=/tmp/try_patch_ev; mkdir -p $out/evidence; cp known_findings.json $out/
-bin/ipcheck -property "$props" -repo /repo -verif $out | grep -E 'VIOLAT|UNDECIDED|KNOWN|quick:' | cut -c1-300
-git -C /repo apply -R "$patch"
-git -C /repo checkout -- . 2>/dev/null
-if [ -n "$(git -C /repo status --porcelain)" ]; then echo "WARNING: /repo not clean after revert"; git -C /repo status --porcelain; fi
+if [ ! -d "$wt" ]; then git -C /repo worktree add -q --detach "$wt" HEAD || exit 2; fi
+git -C "$wt" checkout -q --detach "$(git -C /repo rev-parse HEAD)" 2>/dev/null; git -C "$wt" checkout -- . ; git -C "$wt" clean -fdq
+git -C "$wt" apply "$patch" || { echo "patch does not apply"; exit 2; }
+out=/tmp/try_patch_ev_$$; mkdir -p $out/evidence; cp known_findings.json $out/
+${IPCHECK:-bin/ipcheck} -property "$props" -repo "$wt" -verif $out | grep -E 'VIOLAT|UNDECIDED|KNOWN|quick:' | cut -c1-300
+rm -rf $out
+git -C "$wt" checkout -- . ; git -C "$wt" clean -fdq
